@@ -268,8 +268,19 @@ impl<'a> Filler<'a> {
     pub fn qualified_name(&mut self) -> QualifiedName {
         QualifiedName { namespace_index: self.namespace(), name: self.ua_string() }
     }
+    /// normal form: parts are null or non-empty (null and empty are equivalent on the wire)
     pub fn localized_text(&mut self) -> LocalizedText {
-        LocalizedText { locale: self.ua_string(), text: self.ua_string() }
+        let mut part = |f: &mut Filler| match f.below(3) {
+            0 => UAString::null(),
+            _ => {
+                let mut t = f.text(8);
+                if t.is_empty() {
+                    t.push('t');
+                }
+                UAString::from(t)
+            }
+        };
+        LocalizedText { locale: part(self), text: part(self) }
     }
     pub fn diagnostic_info(&mut self, depth: usize) -> DiagnosticInfo {
         let mask = self.u8();
@@ -292,7 +303,8 @@ impl<'a> Filler<'a> {
         };
         ExtensionObject { node_id, body }
     }
-    pub fn data_value(&mut self, depth: usize) -> DataValue {
+    /// all 64 presence masks (picoseconds without timestamp included)
+    pub fn data_value_raw(&mut self, depth: usize) -> DataValue {
         let mask = self.u8();
         DataValue {
             value: if mask & 1 != 0 { Some(self.variant(depth)) } else { None },
@@ -302,6 +314,18 @@ impl<'a> Filler<'a> {
             server_timestamp: if mask & 16 != 0 { Some(self.date_time_in_range()) } else { None },
             server_picoseconds: if mask & 32 != 0 { Some(self.u16()) } else { None },
         }
+    }
+    /// normal form: picoseconds only together with their timestamp (data_value.rs documents that they
+    /// are otherwise ignored)
+    pub fn data_value(&mut self, depth: usize) -> DataValue {
+        let mut d = self.data_value_raw(depth);
+        if d.source_timestamp.is_none() {
+            d.source_picoseconds = None;
+        }
+        if d.server_timestamp.is_none() {
+            d.server_picoseconds = None;
+        }
+        d
     }
     pub const SCALAR_KINDS: usize = 25;
     /// scalar variant of kind k (0..25); nested kinds bounded by depth
@@ -353,7 +377,7 @@ impl<'a> Filler<'a> {
     /// single or multi-dimensional array whose dimension product equals the length
     pub fn array(&mut self, depth: usize) -> Variant {
         let mut k = self.below(Self::SCALAR_KINDS);
-        if depth == 0 && (k == 22 || k == 23) {
+        if depth <= 1 && (k == 22 || k == 23) {
             k = 5;
         }
         let value_type = Self::kind_type_id(k);
